@@ -5,10 +5,10 @@
 namespace {
 using namespace vf;
 
-struct Plan { int synSeeds; int mutPerSample; int apiModels; };
-Plan plan() { return g_cfg.tier ? Plan{24, 6, 160} : Plan{4, 1, 40}; }
+struct Plan { int synSeeds; int mutPerSample; int apiModels; int edited; };
+Plan plan() { return g_cfg.tier ? Plan{24, 6, 160, 4000} : Plan{4, 1, 40, 320}; }
 
-struct Layout { size_t nReal, nMut, nSyn, nApi, nWit; size_t total() const { return nReal + nMut + nSyn + nApi + nWit; } };
+struct Layout { size_t nReal, nMut, nSyn, nApi, nWit, nEdit; size_t total() const { return nReal + nMut + nSyn + nApi + nWit + nEdit; } };
 // committed witness inputs of known findings (replayed on every run, independent of the seed)
 const std::vector<Sample>& witnesses() {
 	static std::vector<Sample> w;
@@ -28,6 +28,7 @@ Layout layout() {
 	l.nSyn = typeDB().names.size() * (size_t)NVERS * (size_t)p.synSeeds;
 	l.nApi = (size_t)p.apiModels;
 	l.nWit = witnesses().size();
+	l.nEdit = (size_t)p.edited;
 	return l;
 }
 
@@ -154,6 +155,45 @@ void run(size_t idx) {
 		return;
 	}
 	idx -= l.nSyn;
+	if (idx >= l.nApi + l.nWit) {
+		// edited models: real / API-built / synthesised models after random public-API edits (detached sub-graphs, deleted blocks,
+		// added nodes, clones, ...), and synthesised files with reversed block order (children stored before their parents)
+		size_t e = idx - l.nApi - l.nWit;
+		uint64_t seed = mix(g_cfg.seed, 0xED1700 + e);
+		Rng rng(seed);
+		NifFile n;
+		std::string src;
+		int kind = (int)(e % 4);
+		if (kind == 0) { auto& s = realSamples()[(e / 4) % realSamples().size()]; if (loadNif(n, s.bytes) != 0) return; src = "edited real:" + s.name; }
+		else if (kind == 1) { ApiModel m = buildApiModel(seed, (int)e); if (!m.ok || loadNif(n, m.bytes) != 0) return; src = "edited api:" + m.desc; }
+		else {
+			const TypeDB& db = typeDB();
+			const std::string& focus = db.names[rng.below((uint32_t)db.names.size())];
+			const VerInfo& v = VERS[rng.below((uint32_t)NVERS)];
+			SynthOpts so;
+			so.gen.maxCount = 2 + (int)rng.below(3);
+			so.extraBlocks = 8;
+			SynthFile S = synthFile(v, focus, seed, so);
+			if (!S.ok || loadNif(n, S.bytes) != 0) return;
+			src = fmt("%s syn:%s:%s:seed=%llu", kind == 2 ? "reversed" : "edited", v.n, focus.c_str(), (unsigned long long)seed);
+		}
+		if (n.HasUnknown()) return;
+		if (kind == 2) {
+			uint32_t nb = n.GetHeader().GetNumBlocks();
+			std::vector<uint32_t> perm(nb);
+			for (uint32_t i = 0; i < nb; i++) perm[i] = i == 0 ? 0 : nb - i;   // root stays first, everything else reversed
+			n.GetHeader().SetBlockOrder(perm);
+		}
+		else {
+			std::string log = applyRandomEdits(n, rng, 2 + (int)rng.below(5));
+			src += " edits: " + log;
+		}
+		R_caseDesc(src);
+		std::string bytes = saveNif(n, true);
+		roundTrip(bytes, src.substr(0, 500), "", 0, nullptr);
+		if (e < 2) R_sample(fmt("{\"source\":\"edited\",\"history\":\"%s\"}", jesc(src.substr(0, 300)).c_str()));
+		return;
+	}
 	if (idx >= l.nApi) {
 		auto& w = witnesses()[idx - l.nApi];
 		R_caseDesc("witness:" + w.name);
@@ -172,7 +212,7 @@ void run(size_t idx) {
 
 MonReg reg({"C01", "exploration",
 			"inputs: the 52 real sample files, float-mutated variants of them (layout preserved), typed synthesis of a populated instance of each of the 304 registered block types in each "
-			"of 14 versions inside a planned file (root, holder chain to the focus, type-compatible companions; 2 seeds quick / 16 thorough), and models built through the public API. "
+			"of 14 versions inside a planned file (root, holder chain to the focus, type-compatible companions; 2 seeds quick / 16 thorough), models built through the public API, and edited models (random API edit sequences incl. detached sub-graphs on real/API/synthesised models; synthesised files with reversed block order). "
 			"Oracle per accepted input F: N=rawsave(load(F)) loads and rawsave(load(N))==N byte for byte (diffed block by block); default save: D2==D3. Non-trivial = synthesised focus "
 			"block whose payload in N differs from a default-constructed block, or a multi-block real/API file; distinct by (version,type,payload hash).",
 			[] { return layout().total(); }, run, 60, 120.0, false, false, nullptr});
